@@ -838,6 +838,7 @@ func replay(r *evid.Run, scr string) {
 			Cell cell `json:"cell"`
 		}
 		r.LoadReplay(&a)
+		installTxFunctions()
 		cells := cellsFor(a.Cell.Method)
 		for i, c := range cells {
 			if c.Level == a.Cell.Level && c.Shape == a.Cell.Shape {
